@@ -18,7 +18,9 @@ VERIF = os.path.dirname(os.path.abspath(__file__))
 TESTS = ["renormalizer/mps/tests/test_mp.py", "renormalizer/mps/tests/test_mps.py", "renormalizer/mps/tests/test_mpo.py",
          "renormalizer/mps/tests/test_mpdm.py", "renormalizer/mps/tests/test_gs.py", "renormalizer/mps/tests/test_evolve.py",
          "renormalizer/model", "renormalizer/utils/tests", "renormalizer/lib", "renormalizer/mps/tests/test_mpproperty.py",
-         "renormalizer/mps/tests/test_elementop.py", "renormalizer/mps/tests/test_backend.py"]
+         "renormalizer/mps/tests/test_elementop.py", "renormalizer/mps/tests/test_backend.py",
+         "renormalizer/mps/tests/test_tda.py", "renormalizer/vibration", "renormalizer/vibronic", "renormalizer/sbm",
+         "renormalizer/transport/tests/test_dynamics.py", "renormalizer/spectra/tests/test_spectra.py"]
 
 
 def sh(cmd, cwd=None, env=None, timeout=3600):
